@@ -75,6 +75,9 @@ class Seam:
 # calling the public API
 # --------------------------------------------------------------------------
 
+_EXC = {'KeyboardInterrupt': KeyboardInterrupt, 'MemoryError': MemoryError}
+
+
 class SimAbort(BaseException):
     """Raised inside a simulated thread when the run is being torn down."""
 
@@ -149,15 +152,33 @@ def post_quiescence(a5mod, threads):
 
 def run_seq_node(a5mod, seam, spec):
     """Single-threaded execution of the run's calls in a given merged order
-    (used to ask whether an observation is sequentially explainable)."""
+    (used to ask whether an observation is sequentially explainable).  An
+    injected 'kill' fault is applied at the same per-thread step."""
     for call in spec.get('warm', []):
         apply_call(a5mod, call['f'], [canon.dec(a) for a in call['a']])
     res = [[None] * len(tc) for tc in spec['threads']]
     idx = [0] * len(spec['threads'])
+    tsteps = [0] * len(spec['threads'])
+    kill = [spec.get('kill')]
+    cur = [0]
+
+    def handler(code, pos):
+        t = cur[0]
+        k = kill[0]
+        if k is not None and k['t'] == t and tsteps[t] == k['k']:
+            kill[0] = None
+            raise _EXC[k['exc']]('injected by simulator')
+        tsteps[t] += 1
+
     for t in spec['order']:
         call = spec['threads'][t][idx[t]]
         args = [canon.dec(a) for a in call['a']]
-        outcome, _ = apply_call(a5mod, call['f'], args)
+        cur[0] = t
+        seam.handler = handler
+        try:
+            outcome, _ = apply_call(a5mod, call['f'], args)
+        finally:
+            seam.handler = None
         res[t][idx[t]] = [outcome, [canon.enc(a) for a in args] == call['a']]
         idx[t] += 1
     post, post_seq = post_quiescence(a5mod, spec['threads'])
@@ -550,6 +571,8 @@ class Sched:
         self.seam = seam
         self.hot = hot if (hot and plan.wants_hot) else None
         self.prev_hot = [False] * len(thread_calls)
+        self.kill = None
+        self.killed = None
         self.seen_lines = set() if plan.wants_novel else None
         self.a5 = a5mod
         self.calls = thread_calls
@@ -627,12 +650,18 @@ class Sched:
             self._abort('harness: a5 code ran without the baton')
         if self.steps >= self.budget:
             self._abort('budget')
+        k = self.kill
+        if k is not None and k['t'] == t and self.tsteps[t] == k['k']:
+            # fault: this thread's current call dies here (failed allocation / cancellation)
+            self.kill = None
+            self.killed = [t, len(self.results[t]), self.seam.loc(code, pos)]
+            raise _EXC[k['exc']]('injected by simulator')
         if self.hot is not None:
             h = (code.co_filename, pos) in self.hot
             self.plan.hot_now = h or self.prev_hot[t]
             self.prev_hot[t] = h
         if self.seen_lines is not None:
-            key = (code, pos)
+            key = (id(code), pos)
             self.plan.novel_now = key not in self.seen_lines
             self.seen_lines.add(key)
         # one consultation per step; a thread that was preempted here executes this
@@ -736,6 +765,7 @@ def run_threads_node(a5mod, seam, spec, hot=None):
         warm_out.append(outcome)
     plan = make_plan(spec['plan'], rng, len(spec['threads']), spec.get('est_len', 1000))
     s = Sched(seam, a5mod, spec['threads'], plan, spec['budget'], hot=hot if spec.get('gran', 'line') == 'line' else None)
+    s.kill = spec.get('kill')
     s.run()
     post = post_seq = None
     if s.aborted is None and spec.get('post', True):
@@ -744,6 +774,7 @@ def run_threads_node(a5mod, seam, spec, hot=None):
         'results': s.results,
         'post': post,
         'post_seq': post_seq,
+        'killed': s.killed,
         'warm': warm_out,
         'aborted': s.aborted,
         'segments': s.segments,
@@ -762,7 +793,6 @@ def run_threads_node(a5mod, seam, spec, hot=None):
 # the history driver (C17)
 # --------------------------------------------------------------------------
 
-_EXC = {'KeyboardInterrupt': KeyboardInterrupt, 'MemoryError': MemoryError}
 
 
 def _mutate(obj, how, rng_val):
@@ -893,8 +923,34 @@ def run_history_node(a5mod, seam, spec):
         kind = op['op']
         oid = op.get('id', i)
         rec = {'i': i, 'id': oid, 'op': kind}
-        if kind in ('call', 'repeat', 'bad_call', 'interrupt', 'alias'):
-            if kind == 'alias':
+        if kind in ('call', 'repeat', 'bad_call', 'interrupt', 'alias', 'recycle'):
+            recycled = None
+            if kind == 'recycle':
+                # the caller lets go of the objects of an earlier call and builds new argument
+                # containers, which CPython places at the same addresses (object lifetime fault)
+                args = [canon.dec(a) for a in op['a']]
+                fname = op['f']
+                recycled = False
+                old = owned.pop(op['ref'], None)
+                if old is not None:
+                    old_args = old[0]
+                    old = None
+                    for ai in range(min(len(old_args), len(args))):
+                        if type(old_args[ai]) is list and type(args[ai]) is list:
+                            target, content = id(old_args[ai]), args[ai]
+                            old_args[ai] = None
+                            fresh = []
+                            recycled = recycled or id(fresh) == target
+                            fresh.extend(content)
+                            args[ai] = fresh
+                        elif type(old_args[ai]) is dict and type(args[ai]) is dict:
+                            target, content = id(old_args[ai]), args[ai]
+                            old_args[ai] = None
+                            fresh = {}
+                            recycled = recycled or id(fresh) == target
+                            fresh.update(content)
+                            args[ai] = fresh
+            elif kind == 'alias':
                 if op['ref'] not in owned:
                     rec['skipped'] = True
                     recs.append(rec)
@@ -923,6 +979,9 @@ def run_history_node(a5mod, seam, spec):
             owned[oid] = (args, val, fname)
             rec.update({'f': fname, 'pre': pre, 'outcome': outcome, 'post': post,
                         'steps': counter[0], 'landed': landed[0], 'loc': lastloc[0]})
+            if recycled is not None:
+                rec['recycled'] = recycled
+            args = val = None
             if outcome[0] == 'abort':
                 recs.append(rec)
                 break
